@@ -264,11 +264,13 @@ class SimProcess:
     def open(self, path, flags, mode=0o777):
         if self.sim.aborting:
             return -1
-        if path not in self.sim.files:
+        # the kernel knows FILES, not spellings: two spellings of one file are the same file
+        ident = _real_os.path.normpath(path)
+        if ident not in self.sim.files:
             raise FileNotFoundError(2, "No such file or directory", path)
         fd = self.next_fd
         self.next_fd += 1
-        self.fds[fd] = path
+        self.fds[fd] = ident
         return fd
 
     def close(self, fd):
